@@ -161,6 +161,49 @@ theorem raise_is_reported_as_fee (value : Nat) (hops : List FeeHop) (res : Resul
 
 example : (recompute 1000 [⟨0, 0, 0⟩, ⟨10, 0, 2000⟩]).map (·.ret) = some 2000 := by decide
 
+/-! ## path count (get_route's fragmentation bound, translated from the source each run) -/
+
+/-- `max_path_count` minimal contributions always cover the payment (⌈v/n⌉·n ≥ v); without MPP the
+    single path must carry everything. -/
+theorem min_contribution_covers (allow_mpp : Bool) (v n : Nat) (hn : 0 < n) :
+    v ≤ n * minimal_value_contribution_msat allow_mpp v n ∧
+    (allow_mpp = false → minimal_value_contribution_msat allow_mpp v n = v) := by
+  unfold minimal_value_contribution_msat
+  cases allow_mpp
+  · simp; exact Nat.le_mul_of_pos_left v hn
+  · simp
+    have h := Nat.div_add_mod (v + n - 1) n
+    have hm := Nat.mod_lt (v + n - 1) hn
+    have : n * ((v + n - 1) / n) = v + n - 1 - (v + n - 1) % n := by omega
+    omega
+
+private theorem sum_ge_length_mul (m : Nat) (ps : List Nat) (h : ∀ p ∈ ps, m ≤ p) : ps.length * m ≤ ps.sum := by
+  induction ps with
+  | nil => simp
+  | cons a t ih =>
+    have h1 : m ≤ a := h a (by simp)
+    have h2 := ih (fun p hp => h p (by simp [hp]))
+    simp [List.sum_cons, Nat.add_mul]; omega
+
+/-- "A returned route has at most `max_path_count` paths": for ANY payment value, any `max_path_count > 0`
+    and any multiset of collected paths each contributing at least the translated bound, a selection in
+    which the last path was still needed (the others do not reach the value) has at most `max_path_count`
+    paths.  With a floor instead of the ceiling the statement is false (v = 100000, n = 3: four paths of
+    33333 are all needed). -/
+theorem path_count_bounded (allow_mpp : Bool) (v n : Nat) (hn : 0 < n) (q : Nat) (rest : List Nat)
+    (hge : ∀ p ∈ rest, minimal_value_contribution_msat allow_mpp v n ≤ p)
+    (hneeded : rest.sum < v) :
+    (q :: rest).length ≤ n := by
+  have hc := (min_contribution_covers allow_mpp v n hn).1
+  have hs := sum_ge_length_mul _ rest hge
+  have : rest.length * minimal_value_contribution_msat allow_mpp v n < n * minimal_value_contribution_msat allow_mpp v n := by omega
+  have := Nat.lt_of_mul_lt_mul_right this
+  simp; omega
+
+example : minimal_value_contribution_msat true 100000 3 = 33334 := by decide
+example : ¬ (100000 ≤ 3 * (100000 / 3)) := by decide   -- the floor would not cover
+example : ([33334, 33334] : List Nat).sum < 100000 ∧ ∀ p ∈ [33334, 33334], minimal_value_contribution_msat true 100000 3 ≤ p := by decide
+
 /-- The recurrence fails (the Rust `unreachable!()` arm) only if some policy fee overflows u64. -/
 theorem recompute_none_only_on_fee_overflow (value : Nat) (hops : List FeeHop)
     (hno : ∀ h ∈ hops, ∀ a, compute_fees a h.base h.prop ≠ none) : recompute value hops ≠ none := by
